@@ -61,6 +61,8 @@ def run_check(pid, tier, seed):
 
 
 def run_pass(pid, tier, seed, mod, facts, feats):
+    from . import roles as _roles
+    del _roles.WANTED[:]
     sub = core.Ctx(pid, tier, seed)
     sub.cfg = feats or "default"
     sub.facts = facts
